@@ -192,11 +192,10 @@ def _c12():
         hs.append(H("c12::bus2_k%d" % k, "bus of two signs in invariant states (blank sizes; 12x8 mid-transfer with a 15-byte buffer), symbolic addresses; one %s message with symbolic parameters" % kn, tier="quick" if k in (0, 4) else "thorough", unwind=6, unwindset=vs_rules("s5"), params={"signs": 2, "kind": kn}))
     hs.append(H("c12::bus2_data16", "same bus; one 16-byte data chunk, symbolic bytes and offset", unwind=18, unwindset=vs_rules("s5", 16), params={"signs": 2, "kind": "SendData"}))
     hs.append(H("c12::ksteps3", "3 symbolic messages (plain or 16-byte chunk) from VirtualSign::new", unwind=5, unwindset=vs_rules("s3"), params={"k": 3}, timeout=1800, mem_gb=20))
-    hs.append(H("c12::ksteps5", "5 symbolic messages (plain or 16-byte chunk) from VirtualSign::new", tier="thorough", unwind=7, unwindset=vs_rules("s3"), params={"k": 5}, timeout=3600, mem_gb=30))
     return Prop(
         "C12",
         ["VirtualSign::process_message and every handler it dispatches to", "VirtualSign::new", "VirtualSignBus::process_message", "Page::from_bytes", "SignType::from_bytes"],
-        "one inductive step from every invariant state in 13 size shapes (sizes 0x0, 12x8, 30x7, 300x7, 0x7; 0-1 stored pages; pending 0/1/15/16/17/32/48 bytes) x every plain message and data chunks of 0/1/15/16/17/255 bytes with symbolic contents and offset; base case; bus of 2 signs; k<=3 (quick) / 5 (thorough) steps from new()",
+        "one inductive step from every invariant state in 13 size shapes (sizes 0x0, 12x8, 30x7, 300x7, 0x7; 0-1 stored pages; pending 0/1/15/16/17/32/48 bytes) x every plain message and data chunks of 0/1/15/16/17/255 bytes with symbolic contents and offset; base case; bus of 2 signs; k<=3 steps from new()",
         "size shapes not listed (more than one stored page, other dimensions); a logger being installed (log macros are inactive)",
         [],
         COMMON_ASSUME + ["one-step pre-states are constrained only by vsign::inv_holds, whose base case and preservation are checked in the same run", "hook: VirtualSign::verif_from_parts / verif_parts (cfg(kani))"],
@@ -476,11 +475,11 @@ def fr_rules(n):
 
 def _lemma_r(quick_names):
     hs = []
-    for l in (12, 13):
+    for l in (11, 13):
         hs.append(
             H(
                 "gen_frames::r_exact%d" % l,
-                "Lemma R for every byte string of exactly %d bytes (cheap even when the pattern is not anchored: catches a dropped ^ or $)" % l,
+                "Lemma R for every byte string of exactly %d bytes (the two shortest lengths that admit well-formed texts; cheap even when the pattern is not anchored: a dropped ^ or $ shows at 13 bytes)" % l,
                 tier="quick",
                 unwind=l + 3,
                 unwindset=[("str_eq|group_index|bytes_eq", 16)],
@@ -506,7 +505,7 @@ def _lemma_r(quick_names):
                 lemma="R",
             )
         )
-    for l in [x for x in genframes.R_EXACT_T if x > 13]:
+    for l in [x for x in genframes.R_EXACT_T if x > 13 or x == 12]:
         hs.append(
             H(
                 "gen_frames::r_exact%d" % l,
@@ -725,16 +724,26 @@ def ctl_rules(ilen):
 
 
 def ctl_h(name, desc, tier="quick", ilen=16, p=1, timeout=3000, mem=8, **params):
-    return H(name, desc, tier=tier, unwind=max(5, p + 2, (ilen + 15) // 16 + 2), unwindset=ctl_rules(ilen), params=params, timeout=timeout, mem_gb=24, mem_expect=mem)
+    rules = ctl_rules(ilen)
+    att = params.get("attempts")
+    if att:
+        # harnesses limited to `att` transfer attempts: the bus cuts later attempts with assume(false), so the
+        # retry loop of Sign::send_data (its last-numbered loop) can be unrolled att times only; the unwinding
+        # assertion proves that no further iteration is reachable under that cut
+        rules = [(r"send_data.*\.2$", att + 1)] + rules
+    return H(name, desc, tier=tier, unwind=max(5, p + 2, (ilen + 15) // 16 + 2), unwindset=rules, params=params, timeout=timeout, mem_gb=24, mem_expect=mem)
 
 
 def _c09():
-    hs = [ctl_h("c09::configure_all_types", "Sign::configure (any address, any supported type) against a conformant sign whose first-hello state and per-attempt result (received/failed) are symbolic: request acked before the chunk, chunk = the type's 16-byte block at offset 0, count = chunks since the request, then the query; up to 3 attempts", op="configure")]
+    hs = [ctl_h("c09::configure_a1", "Sign::configure as Max3000Dash30x7 (any address) against a conformant sign with a symbolic first-hello state: reset dance, then request acked before the chunk, chunk = the 16-byte block at offset 0, count 1, query; first transfer attempt only", op="configure", attempts=1),
+          ctl_h("c09::configure_all_types", "Sign::configure (any address, any supported type) against a conformant sign whose first-hello state and per-attempt result (received/failed) are symbolic: request acked before the chunk, chunk = the type's 16-byte block at offset 0, count = chunks since the request, then the query; up to 3 attempts", tier="thorough", op="configure")]
     for nm, p, ilen, w, h, tier in [
         ("pages_p0", 0, 16, 12, 8, "quick"),
-        ("pages_p1_16", 1, 16, 12, 8, "quick"),
+        ("pages_p1_16_a1", 1, 16, 12, 8, "quick"),
+        ("pages_p1_32_a1", 1, 32, 28, 8, "quick"),
+        ("pages_p1_16", 1, 16, 12, 8, "thorough"),
         ("pages_p1_48_a1", 1, 48, 30, 7, "thorough"),
-        ("pages_p2_16_a1", 2, 16, 12, 8, "quick"),
+        ("pages_p2_16_a1", 2, 16, 12, 8, "thorough"),
         ("pages_p2_48_a1", 2, 48, 30, 7, "thorough"),
         ("pages_p1_96_a1", 1, 96, 90, 7, "thorough"),
         ("pages_p1_336_a1", 1, 336, 160, 16, "thorough"),
@@ -746,7 +755,7 @@ def _c09():
         ("pages_p1_96", 1, 96, 90, 7, "thorough"),
         ("pages_p1_336", 1, 336, 160, 16, "thorough"),
     ]:
-        hs.append(ctl_h("c09::" + nm, "Sign::send_pages with %d page(s) of %dx%d (%d bytes each, ALL bytes symbolic, also header/padding) against a conformant sign with symbolic per-attempt result: every chunk <=16 bytes, offsets 0,16,.. restarting per page, concatenation equals the page, count = chunks since the request, then query; %s" % (p, w, h, ilen, "first attempt only (retries are covered at the 16-byte size)" if nm.endswith("_a1") else "up to 3 attempts"), tier=tier, ilen=ilen, p=p, timeout=5400, mem=10 if ilen > 48 else 8, pages=p, page_bytes=ilen))
+        hs.append(ctl_h("c09::" + nm, "Sign::send_pages with %d page(s) of %dx%d (%d bytes each, ALL bytes symbolic, also header/padding) against a conformant sign with symbolic per-attempt result: every chunk <=16 bytes, offsets 0,16,.. restarting per page, concatenation equals the page, count = chunks since the request, then query; %s" % (p, w, h, ilen, "first attempt only (retries are covered at the 16-byte size)" if nm.endswith("_a1") else "up to 3 attempts"), tier=tier, ilen=ilen, p=p, timeout=5400, mem=10 if ilen > 48 else 8, pages=p, page_bytes=ilen, **({"attempts": 1} if nm.endswith("_a1") else {})))
     return Prop(
         "C09",
         ["Sign::configure", "Sign::send_pages", "Sign::send_data", "Sign::ensure_unconfigured", "Sign::send_message / send_message_expect_response", "sign::verify_response", "SignType::to_bytes", "Page::as_bytes"],
@@ -761,7 +770,8 @@ def _c09():
 
 def _c10():
     hs = [
-        ctl_h("c10::configure", "Sign::configure against ARBITRARY replies at every step (silence, bus error, any report or ack from any address, unrelated messages): each message sent must be exactly the one the reference controller prescribes for the replies so far (incl. chunk contents); outcome class must match", op="configure"),
+        ctl_h("c10::configure_a1", "Sign::configure (Max3000Dash30x7) against ARBITRARY replies at every step, conversations limited to the first transfer attempt (reset dance in all three variants + one transfer): message-by-message comparison with the reference controller", op="configure", attempts=1),
+        ctl_h("c10::configure", "Sign::configure against ARBITRARY replies at every step (silence, bus error, any report or ack from any address, unrelated messages): each message sent must be exactly the one the reference controller prescribes for the replies so far (incl. chunk contents); outcome class must match; all sign types, all three attempts", tier="thorough", op="configure"),
         ctl_h("c10::configure_if_needed", "Sign::configure_if_needed, same adversary", tier="thorough", op="configure_if_needed"),
         ctl_h("c10::shut_down", "Sign::shut_down, same adversary", op="shut_down"),
         ctl_h("c10::show_loaded_page_k3", "Sign::show_loaded_page, same adversary; polling bounded to 3 trigger/in-progress reports", op="show_loaded_page", polls=3),
@@ -769,9 +779,11 @@ def _c10():
         ctl_h("c10::show_loaded_page_k6", "Sign::show_loaded_page, polling bounded to 6", tier="thorough", op="show_loaded_page", polls=6),
         ctl_h("c10::load_next_page_k6", "Sign::load_next_page, polling bounded to 6", tier="thorough", op="load_next_page", polls=6),
         ctl_h("c10::send_pages_p0", "Sign::send_pages with no page, same adversary", p=0, op="send_pages", pages=0),
-        ctl_h("c10::send_pages_p1_16", "Sign::send_pages with one 16-byte page (symbolic bytes), same adversary", op="send_pages", pages=1, page_bytes=16),
+        ctl_h("c10::send_pages_p1_16_a1", "Sign::send_pages with one 16-byte page (symbolic bytes), same adversary, first attempt only", op="send_pages", pages=1, page_bytes=16, attempts=1),
+        ctl_h("c10::send_pages_p1_32_a1", "Sign::send_pages with one 32-byte page (two chunks), same adversary, first attempt only", ilen=32, op="send_pages", pages=1, page_bytes=32, attempts=1),
+        ctl_h("c10::send_pages_p1_16", "Sign::send_pages with one 16-byte page (symbolic bytes), same adversary, all attempts", tier="thorough", op="send_pages", pages=1, page_bytes=16),
         ctl_h("c10::send_pages_p1_48_a1", "Sign::send_pages with one 48-byte page (3 chunks), same adversary, conversations limited to the first transfer attempt", tier="thorough", ilen=48, op="send_pages", pages=1, page_bytes=48, attempts=1),
-        ctl_h("c10::send_pages_p2_16_a1", "Sign::send_pages with two 16-byte pages, same adversary, first attempt only", p=2, op="send_pages", pages=2, page_bytes=16, attempts=1),
+        ctl_h("c10::send_pages_p2_16_a1", "Sign::send_pages with two 16-byte pages, same adversary, first attempt only", tier="thorough", p=2, op="send_pages", pages=2, page_bytes=16, attempts=1),
         ctl_h("c10::send_pages_p1_48", "Sign::send_pages with one 48-byte page, same adversary", tier="thorough", ilen=48, op="send_pages", pages=1, page_bytes=48, timeout=5400),
         ctl_h("c10::send_pages_p2_16", "Sign::send_pages with two 16-byte pages, same adversary", tier="thorough", p=2, op="send_pages", pages=2, page_bytes=16, timeout=5400),
     ]
@@ -789,15 +801,18 @@ def _c10():
 
 def _c11():
     hs = [
-        ctl_h("c11::configure", "Sign::configure against arbitrary replies; invariants only: success => own 'received' report concluded the final attempt; nothing sent after a disallowed reply or bus error; error class; <= 3 attempts; retry only after own 'failed'; own address on every addressed message", op="configure"),
+        ctl_h("c11::configure_a1", "Sign::configure (Max3000Dash30x7) against arbitrary replies, first transfer attempt only: same invariants", op="configure", attempts=1),
+        ctl_h("c11::configure", "Sign::configure against arbitrary replies; invariants only: success => own 'received' report concluded the final attempt; nothing sent after a disallowed reply or bus error; error class; <= 3 attempts; retry only after own 'failed'; own address on every addressed message; all sign types, all three attempts", tier="thorough", op="configure"),
         ctl_h("c11::configure_if_needed", "Sign::configure_if_needed, same invariants (a foreign 'ready' report must not suppress configuration)", tier="thorough", op="configure_if_needed"),
         ctl_h("c11::shut_down", "Sign::shut_down, same invariants", op="shut_down"),
         ctl_h("c11::show_loaded_page_k3", "Sign::show_loaded_page (polling <= 3), same invariants", op="show_loaded_page", polls=3),
         ctl_h("c11::load_next_page_k3", "Sign::load_next_page (polling <= 3), same invariants", op="load_next_page", polls=3),
         ctl_h("c11::send_pages_p0", "Sign::send_pages with no page", p=0, op="send_pages", pages=0),
-        ctl_h("c11::send_pages_p1_16", "Sign::send_pages with one 16-byte page", op="send_pages", pages=1, page_bytes=16),
+        ctl_h("c11::send_pages_p1_16_a1", "Sign::send_pages with one 16-byte page, first attempt only", op="send_pages", pages=1, page_bytes=16, attempts=1),
+        ctl_h("c11::send_pages_p1_32_a1", "Sign::send_pages with one 32-byte page (two chunks: a bad reply on a non-final chunk), first attempt only", ilen=32, op="send_pages", pages=1, page_bytes=32, attempts=1),
+        ctl_h("c11::send_pages_p1_16", "Sign::send_pages with one 16-byte page, all attempts", tier="thorough", op="send_pages", pages=1, page_bytes=16),
         ctl_h("c11::send_pages_p1_48_a1", "Sign::send_pages with one 48-byte page (three chunks: a bad reply on a non-final chunk), conversations limited to the first attempt", tier="thorough", ilen=48, op="send_pages", pages=1, page_bytes=48, attempts=1),
-        ctl_h("c11::send_pages_p2_16_a1", "Sign::send_pages with two 16-byte pages, first attempt only", p=2, op="send_pages", pages=2, page_bytes=16, attempts=1),
+        ctl_h("c11::send_pages_p2_16_a1", "Sign::send_pages with two 16-byte pages, first attempt only", tier="thorough", p=2, op="send_pages", pages=2, page_bytes=16, attempts=1),
         ctl_h("c11::send_pages_p1_48", "Sign::send_pages with one 48-byte page, all attempts", tier="thorough", ilen=48, op="send_pages", pages=1, page_bytes=48, timeout=5400),
         ctl_h("c11::send_pages_p2_16", "Sign::send_pages with two 16-byte pages", tier="thorough", p=2, op="send_pages", pages=2, page_bytes=16, timeout=5400),
     ]
